@@ -114,6 +114,15 @@ def judge_object(x, *, is_result: bool):
                 fails.append(("roundtrip", "tables differ after from_json"))
             if [i.get_bytes().read() for i in y.iterate_images()] != [i.get_bytes().read() for i in x.iterate_images()]:
                 fails.append(("roundtrip", "image bytes differ after from_json"))
+            # the JSON form carries the whole payload wherever a consumer has left the read position of a binary stream
+            for i in x.iterate_images():
+                i.get_bytes().read(5)
+            for a in getattr(x, "attachments", None) or []:
+                if hasattr(getattr(a, "data", None), "read"):
+                    a.data.read(7)
+            j3 = x.to_json() if hasattr(x, "to_json") else serialize_extraction(x)
+            if j3 != j:
+                fails.append(("binary-position", f"to_json() differs once a binary stream has been read: {_first_diff(j, j3)}"))
         except Exception as e:  # noqa
             fails.append(("roundtrip", f"accessor on the restored object raises {type(e).__name__}: {e}"))
     try:
@@ -226,6 +235,9 @@ def judge_case(case, with_cli=False):
                     continue
                 if rc != 0 or got != json.loads(json.dumps(want)):
                     fails.append(("cli", f"{' '.join(flags)}: exit {rc}; CLI JSON differs from serialize_extraction: {_first_diff(json.loads(json.dumps(want)), got)}"))
+                elif json.dumps(got) != json.dumps(json.loads(json.dumps(want))):
+                    # same members, other member order: header-keyed table rows (xls) take their column order from it
+                    fails.append(("cli", f"{' '.join(flags)}: the CLI writes the members of JSON objects in another order than to_json() (column order of header-keyed rows is lost)"))
     return fails, jsons, None
 
 
